@@ -10,7 +10,8 @@ VARIABLES s, hist, art0
 
 Refs  == {"tag", "digest", "fullTag", "fullDigest", "mismatch"}
 Metas == {"empty", "disjoint", "colliding", "reserved"}
-Calls == [ref : Refs, meta : Metas]
+(* unusable options come with a plain tag reference and no metadata (the refusal does not depend on them) *)
+Calls == [ref : Refs, meta : Metas, opt : {"ok"}] \cup [ref : {"tag"}, meta : {"empty"}, opt : BadOpts]
 
 Idle(a, r) == [art |-> a, refs |-> r, pc |-> "idle"]
 Init == \E a \in [annotated : BOOLEAN, store : {"mem", "oci", "ociReopen", "ociExternal"}, signerAnn : {"none", "unrelated", "clashing"}] : s = Idle(a, 0) /\ hist = <<>> /\ art0 = a
@@ -25,6 +26,7 @@ Inv_C11 == s.pc = "done" =>
   /\ (s.ok <=> D_SignSucceeds(s.art, s.call))
   /\ (s.ok => s.signed = "resolved+meta" /\ s.subject = "resolved" /\ s.ann = "thumbprints+time")
   /\ s.art = art0 /\ s.callerMeta = s.call.meta
+  /\ (s.call.opt \in BadOpts => ~s.asked /\ ~s.ok)             \* unusable options: refused without asking the repository
 (* hence: the same call again succeeds again *)
 Inv_Repeatable == s.pc = "done" /\ s.ok => SRun(SStart(s.art, s.refs, s.call)).ok
 Inv_PushCount == s.refs = Cardinality({i \in 1..Len(hist) : D_SignSucceeds(art0, hist[i])}) - (IF s.pc \notin {"idle", "done"} /\ D_SignSucceeds(art0, hist[Len(hist)]) THEN 1 ELSE 0)
